@@ -65,6 +65,7 @@ func cmdVC(args []string) {
 	keep := fs.String("keep", "", "keep SMT files in this directory")
 	timeout := fs.Int("t", 10, "timeout per obligation (s)")
 	verbose := fs.Bool("v", false, "verbose")
+	nosolve := fs.Bool("nosolve", false, "only build the VCs")
 	fs.Parse(args)
 	p, err := loadProgram(*repo, receptorPkgs)
 	if err != nil {
@@ -89,6 +90,13 @@ func cmdVC(args []string) {
 		var items []OblResult
 		for _, o := range r.VC.obls {
 			items = append(items, OblResult{Obl: o, VC: r.VC})
+		}
+		if *nosolve {
+			fmt.Printf("%s: %d obligations, %d abstracted, %d unbound\n", key, len(items), len(r.Abstracted), len(r.Unbound))
+			for _, a := range r.Abstracted {
+				fmt.Println("  abstracted:", a)
+			}
+			continue
 		}
 		dischargeAll(items, dir, *timeout, 0, 16)
 		sort.SliceStable(items, func(i, j int) bool { return items[i].Obl.Name < items[j].Obl.Name })
